@@ -173,6 +173,7 @@ type Obligation struct {
 	Cover   bool // goal is a reachability cover: expected SAT
 	Static  string
 	SubGoals []string // when set, the goal is the conjunction of these (one per return site) and each is discharged by its own query
+	Blk     int    // top-level block in which the obligation arises (-1: function exit / unknown)
 	Group   string // proof group: only invariants of the same group (and ungrouped ones) are assumed
 	Result  *SolveResult
 }
@@ -213,6 +214,9 @@ type Exec struct {
 	topFn     *ssa.Function
 	nrange    int
 	groups    map[string]bool
+	scriptBlk   []int // per script line: index of the top-level block during whose execution it was emitted (-1: always relevant)
+	curBlk      int
+	globalDepth int
 	writable  map[string][]string // heap -> addresses of pre-existing objects the top function may write (writes clauses)
 }
 
@@ -221,7 +225,21 @@ func (ex *Exec) sym(prefix string) string {
 	return fmt.Sprintf("%s!%d", prefix, ex.nsym)
 }
 
-func (ex *Exec) emit(line string) { ex.script = append(ex.script, line) }
+func (ex *Exec) emit(line string) {
+	ex.script = append(ex.script, line)
+	b := ex.curBlk
+	if ex.globalDepth > 0 {
+		b = -1
+	}
+	ex.scriptBlk = append(ex.scriptBlk, b)
+}
+
+// global marks the lines emitted by fn as facts that hold everywhere (never sliced away).
+func (ex *Exec) global(fn func()) {
+	ex.globalDepth++
+	fn()
+	ex.globalDepth--
+}
 
 func (ex *Exec) def(prefix, sort, term string) string {
 	// avoid re-defining trivial atoms
